@@ -597,6 +597,16 @@ class HttpProxyPlugin(HttpProtocolHandlerPlugin):
         host, port = self.request.host, self.request.port
         if host and port:
             try:
+                text_(host)
+            except UnicodeDecodeError as e:
+                # Resolver hooks, the connection itself and every log line below
+                # work with the decoded name: a target host that is not valid
+                # UTF-8 cannot be connected to.
+                self.client.queue(BAD_REQUEST_RESPONSE_PKT)
+                raise HttpProtocolException(
+                    'Invalid upstream host %r' % host,
+                ) from e
+            try:
                 # Invoke plugin.resolve_dns
                 upstream_ip, source_addr = None, None
                 for plugin in self.plugins.values():
